@@ -576,6 +576,58 @@ example :
     failsAt demoEnv cs 0 3 = true ∧ failsAt demoEnv cs 2 3 = false ∧
     abortAt cs 3 = true ∧ seenAt demoEnv cs 2 3 = 13 := by decide
 
+/-! #### the hypotheses of the main theorems are inhabited (one non-trivial instance beside each) -/
+
+private def demoChain : List (Check Nat Nat) :=
+  [.pred 5 false none, .overwrite 10, .pred 12 false none, .pred 100 true none, .pred 0 false none]
+
+-- `c10_first_failing`: check 0 fails on 3 and nothing before it does; it heads the report
+example : failsAt demoEnv demoChain 0 3 = true ∧ (∀ j, j < 0 → failsAt demoEnv demoChain j 3 = false) ∧
+    (runChecks demoEnv demoChain 3).issues.head? = some 0 :=
+  ⟨by decide, fun j h => absurd h (Nat.not_lt_zero j), by decide⟩
+
+-- `c10_first_failing` with a non-zero least failing position (an overwrite and a passing check before it)
+example : failsAt demoEnv demoChain 3 7 = true ∧ failsAt demoEnv demoChain 0 7 = false ∧ failsAt demoEnv demoChain 2 7 = false ∧
+    (runChecks demoEnv demoChain 7).issues.head? = some 3 := by decide
+
+-- `c10_abort_stops`: check 3 is reported, carries abort, and nothing after it is evaluated or reported
+example : 3 ∈ (runChecks demoEnv demoChain 3).issues ∧ abortAt demoChain 3 = true ∧
+    (runChecks demoEnv demoChain 3).log.all (fun e => e.pos ≤ 3) = true ∧ (runChecks demoEnv demoChain 3).issues = [0, 3] := by decide
+
+-- `c10_ok_iff_no_fail` / `c10_ok_value`: a chain with an overwrite that accepts, and the value it returns
+example : (runChecks demoEnv [.pred 5 false none, .overwrite 10, .pred 12 false none] 7).issues = [] ∧
+    (runChecks demoEnv [.pred 5 false none, .overwrite 10, .pred 12 false none] 7).val = 17 ∧
+    seenAt demoEnv [.pred 5 false none, .overwrite 10, .pred 12 false none] 3 7 = 17 := by decide
+
+-- `c10_value_threading`: the check after the overwrite is evaluated on the overwritten value
+example : Ev.check 2 17 ∈ (runChecks demoEnv [.pred 5 false none, .overwrite 10, .pred 12 false none] 7).log := by decide
+
+-- a when-guard that is false: the check is skipped and does not fail (`checkFails`)
+example : failsAt demoEnv [.pred 100 false (some 50)] 0 7 = false ∧ (runChecks demoEnv [.pred 100 false (some 50)] 7).issues = [] := by decide
+
+-- `c10_runOn_ok_iff` / `c10_abort_stops_all`: pointer input of a pointer schema with an overwrite attached
+example : (runChecksOn demoEnv true true [.overwrite 10, .pred 12 false none] 7).issues = [] ∧
+    (runChecksOn demoEnv true true [.overwrite 10, .pred 12 true none, .overwrite 1] 1).issues = [1] ∧
+    (runChecksOn demoEnv true true [.overwrite 10, .pred 12 true none, .overwrite 1] 1).log.all (fun e => e.pos ≤ 1) = true := by decide
+
+-- `c10_transform_once`: success → exactly one invocation, after the checks; failure → none
+example : (parsePipeline demoEnv (.transform (.base 0 false [.pred 5 false none]) 1 3) 7 false).log =
+      [.chk 0 (.check 0 7), .tr 1 7] ∧
+    (match (parsePipeline demoEnv (.transform (.base 0 false [.pred 5 false none]) 1 3) 7 false).out with | .ok x => x = 21 | _ => False) ∧
+    (parsePipeline demoEnv (.transform (.base 0 false [.pred 5 false none]) 1 3) 2 false).log = [.chk 0 (.check 0 2)] := by
+  refine ⟨by decide, ?_, by decide⟩
+  show (21 : Nat) = 21
+  rfl
+
+-- `c10_pipe_ok_iff`: both stages accept / the second rejects what the first hands on
+example : (match (parsePipeline demoEnv (.pipe (.base 0 false [.overwrite 10]) (.base 1 false [.pred 15 false none])) 7 false).out with
+      | .ok x => x = 17 | _ => False) ∧
+    (match (parsePipeline demoEnv (.pipe (.base 0 false [.overwrite 10]) (.base 1 false [.pred 15 false none])) 2 false).out with
+      | .error e => e = (1, [0]) | _ => False) := by
+  constructor
+  · show (17 : Nat) = 17; rfl
+  · show ((1, [0]) : Nat × List Nat) = (1, [0]); rfl
+
 /-- **Witness (known finding).** With a pointer input and an overwrite attached, the extra pass of
     `validatePointer` (run after an accepting regular pass) evaluates a when-guard on a value that has
     *not* gone through the overwrite attached before it. -/
